@@ -66,6 +66,10 @@ def unit_predictions(h):
     h.ensures("C16.design_matrix_built_from_rep_then_nonrep", len(self.attrs) > 0)
 
 
+def _us_rp(ev):
+    return {"target": "verif_replays:uniform_swing_request_replay", "args": [], "check": "result['exc'] is None and result['ok']"}
+
+
 @unit("C05", "uniform_swing", fns=[f"{CO}.get_unit_predictions", f"{CO}.fit_model", f"{FEAT}.__init__", f"{FEAT}.prepare_data", f"{FEAT}.filter_to_active_features", f"{FEAT}.generate_holdout_data", f"{FEAT}._sort_features"])
 def uniform_swing(h):
     """no features, no fixed effects: the REAL Featurizer is executed; every prediction is the baseline scaled by
@@ -82,13 +86,13 @@ def uniform_swing(h):
     X = c["x"].frame
     h.ensures("design_is_intercept_only", list(X.cols) == ["intercept"] and z3.is_true(z3.simplify(real(X.cols["intercept"].t) == 1)))
     h.ensures("fit_rows_weights_response", frames.same_rows(X.axis, t.rep.axis) and z3.eq(c["weights"].t, t.rep.col("last_election_results_turnout").t) and z3.eq(c["y"].t, t.rep.col("residuals_turnout").t) and c["taus"] == 0.5)
-    h.ensures("fit_is_the_unregularised_weighted_median_problem", c["regularize_intercept"] is False and c["fit_intercept"] is True and c["n_feat_ignore_reg"] == 0, why=f"request: regularize_intercept={c['regularize_intercept']!r} fit_intercept={c['fit_intercept']!r}")
+    h.ensures("fit_is_the_unregularised_weighted_median_problem", c["regularize_intercept"] is False and c["fit_intercept"] is True and c["n_feat_ignore_reg"] == 0, why=f"request: regularize_intercept={c['regularize_intercept']!r} fit_intercept={c['fit_intercept']!r}", replay=_us_rp)
     m = qr.coefs["intercept"]
     h.syms["m"] = m
     rows = z3.And(*t.nonrep.axis.facts())
     x = (1 + m) * t.last
     mx = z3.If(x >= t.res, x, t.res)
-    h.ensures("one_common_factor", z3.Implies(rows, preds.t == z3.ToReal(round_half_even_t(mx))))
+    h.ensures("one_common_factor", z3.Implies(rows, preds.t == z3.ToReal(round_half_even_t(mx))), replay=_us_rp)
     # rounding commutes with the floor because the partial count is a whole number
     # "rounded, then floored" (statement) vs "floored, then rounded" (code): equal because the partial count is a
     # whole number -- lemma over an arbitrary real X and integer r, instantiated at X = (1+m)*last, r = results
@@ -286,7 +290,7 @@ def two_estimands(h):
         lraw, uraw = qs[0].predict(_holdout(h, t)), qs[1].predict(_holdout(h, t))
         want_l = z3.If((lraw.t - c) * last + last >= rs, (lraw.t - c) * last + last, rs)
         want_u = z3.If((uraw.t + c) * last + last >= rs, (uraw.t + c) * last + last, rs)
-        h.ensures(f"own_correction.{e}", z3.Implies(rows, z3.And(res.lower.t == theory_np.RND(want_l, z3.IntVal(0)), res.upper.t == theory_np.RND(want_u, z3.IntVal(0)))))
+        h.ensures(f"own_correction.{e}", z3.Implies(rows, z3.And(res.lower.t == theory_np.RND(want_l, z3.IntVal(0)), res.upper.t == theory_np.RND(want_u, z3.IntVal(0)))), replay=lambda ev: {"target": "verif_replays:two_estimands_replay", "args": [], "check": "result['exc'] is None and result['ok']"})
 
 
 # the gaussian aggregate units live in C15 (which imports this module): loading it registers them under C03 / C02 as well
